@@ -34,6 +34,9 @@ def write_if_changed(path, text):
     return False
 
 def impl_bin(profile="debug"):
+    # bin/coverage.sh points this at a coverage-instrumented build of the same harness (a diagnostic, not a check)
+    if os.environ.get("VERIF_IMPL_BIN"):
+        return os.environ["VERIF_IMPL_BIN"]
     return os.path.join(TARGET, profile, "impl_run")
 
 def model_bin():
